@@ -23,6 +23,14 @@ def main():
         import check_tree
 
         return check_tree.run(a.prop, a.tier, replay=a.replay)
+    if a.prop == "C13":
+        import check_c13
+
+        return check_c13.run(a.prop, a.tier, replay=a.replay)
+    if a.prop == "C12":
+        import check_c12
+
+        return check_c12.run(a.prop, a.tier, replay=a.replay)
     if a.prop == "C05":
         import check_c05
 
